@@ -210,6 +210,8 @@ def render_verilog(nl, lib, seed, simple=False, modname='top'):
             if not simple and kind == 'wire' and st.pick(4) == 0: kw = 'tri'            # same meaning for a gate-level netlist
             if not simple and kind == 'input' and st.pick(6) == 0: kw = 'inout'         # documented: treated as input
             decl_stmts.append(f'{kw} {r}{nm}{st.sp()};')
+            if not simple and kind in ('input', 'output') and st.pick(5) == 0:      # a port may be declared as a wire as well (before or after)
+                decl_stmts.insert(len(decl_stmts) - st.pick(2), f'wire {r}{nm}{st.sp()};')
     decl('input', pi_decls); decl('output', po_decls); decl('wire', wire_decl)
     inst_names = {}
     insts = []          # what was instantiated: name, cell, {input pin: src}, {output pin: src}
